@@ -273,7 +273,7 @@ func (R *Renderer) render(v ssa.Value) string {
 			name := "?"
 			if pt, ok := a.Type().Underlying().(*types.Pointer); ok {
 				if st, ok := pt.Elem().Underlying().(*types.Struct); ok {
-					name = st.Field(x.Field).Name()
+					name = fldName(st.Field(x.Field))
 				}
 			}
 			return "&" + allocName(a) + "." + name
@@ -281,7 +281,7 @@ func (R *Renderer) render(v ssa.Value) string {
 		return "&" + R.fieldOf(x.X, x.Field, x)
 	case *ssa.Field:
 		st := x.X.Type().Underlying().(*types.Struct)
-		return R.V(x.X) + "." + st.Field(x.Field).Name()
+		return R.V(x.X) + "." + fldName(st.Field(x.Field))
 	case *ssa.IndexAddr:
 		return "&" + R.V(x.X) + "[" + R.idx(x.Index) + "]"
 	case *ssa.Index:
@@ -407,7 +407,7 @@ func (R *Renderer) fieldOf(base ssa.Value, field int, at ssa.Instruction) string
 	name := "?"
 	if ok {
 		if st, ok := pt.Elem().Underlying().(*types.Struct); ok {
-			name = st.Field(field).Name()
+			name = fldName(st.Field(field))
 		}
 	}
 	if a, ok := base.(*ssa.Alloc); ok {
